@@ -1270,6 +1270,23 @@ class LcGen(GovGen):
             self.ops.append("restart")
             self.tags.add("restart")
             probe(f)
+        if r.random() < 0.5:
+            # an update that does need a vote (the name changes) and leaves the list of blocked sources as it is: approved or not,
+            # the blocked source stays blocked
+            self.submit(f"ca{dc[1]}", f"service UpdateService s:{d} s:{name}-v2 s:intro s:1356:{f} s:details s:reason", "service-update", "service", d)
+            ref, kind, mod, obj = self.props[-1]
+            ballot = r.choice(["approve", "approve", "reject"])
+            self.vote_all(ref, mod, obj, ballot)
+            self.observe(d)
+            probe(f)
+            probe(g)
+            if r.random() < 0.5:
+                self.ops.append("restart")
+                self.tags.add("restart")
+                probe(f)
+            self.tags.add("permission-update:rename-keeps-the-list:" + ballot)
+            self.tags.add("permission-update-scenario")
+            return
         self.ops.append(f"block bvm ca{dc[1]} service UpdateService s:{d} s:{name} s:intro s:{'1356:' + g if r.random() < 0.5 else '~'} s:details s:reason")
         self.observe(d)
         probe(f)
